@@ -191,7 +191,7 @@ struct Driver {
 	bool overflow = false, diverged = false;
 	int budget = MAXEV - 8;
 	// strategy table: decision index per guard site (sid 0..N-1 entry, N..2N-1 exit, 2N root entry)
-	uint8_t strat[2 * 4 + 1];
+	uint8_t strat[2 * 8 + 1];
 	unsigned mf = 0;
 	void* cur = nullptr;        // instance currently driven (for machine-side observations)
 	const void* event = nullptr; // address of the event object handed to react()/query()
@@ -214,6 +214,8 @@ struct Driver {
 static Driver G;
 
 static Vec<Act> menuGuard[2], menuFull[2], menuLife;   // [isRoot]
+// state ids the alphabet and the menus use (all of them by default; a subset keeps machines with many states explorable)
+static int g_ids[8] = {0, 1, 2, 3, 4, 5, 6, 7}; static int g_nids = VX_N;
 
 // --------------------------------------------------------------------------- machine types
 using Cfg0 = ffsm2::Config::ContextT<ContextArg>::SubstitutionLimitN<VX_L>;
@@ -256,8 +258,16 @@ using FSM = VX_ROOTKIND(St<0>, VX_LAST);
 using FSM = VX_ROOTKIND(St<0>, St<1>, VX_LAST);
 #elif VX_N == 4
 using FSM = VX_ROOTKIND(St<0>, St<1>, St<2>, VX_LAST);
+#elif VX_N == 5
+using FSM = VX_ROOTKIND(St<0>, St<1>, St<2>, St<3>, VX_LAST);
+#elif VX_N == 6
+using FSM = VX_ROOTKIND(St<0>, St<1>, St<2>, St<3>, St<4>, VX_LAST);
+#elif VX_N == 7
+using FSM = VX_ROOTKIND(St<0>, St<1>, St<2>, St<3>, St<4>, St<5>, VX_LAST);
+#elif VX_N == 8
+using FSM = VX_ROOTKIND(St<0>, St<1>, St<2>, St<3>, St<4>, St<5>, St<6>, VX_LAST);
 #else
-#error VX_N out of range
+#error VX_N out of range (1..8)
 #endif
 using Inst = FSM::Instance;
 using Transition = M::Transition;
@@ -311,7 +321,7 @@ template <> struct RtBase<1> { using Type = FSM::StateT<RInj<1>>; };
 template <> struct RtBase<2> { using Type = FSM::StateT<RInj<1>, RInj<2>>; };
 template <> struct RtBase<3> { using Type = FSM::StateT<RInj<1>, RInj<2>, RInj<3>>; };
 
-static constexpr int INJ_OF[4] = {VX_INJ_S0, VX_INJ_S1, VX_INJ_S2, VX_INJ_S3};
+static constexpr int INJ_OF[8] = {VX_INJ_S0, VX_INJ_S1, VX_INJ_S2, VX_INJ_S3, 0, 0, 0, 0};
 static constexpr int INJ_ROOT = VX_INJ_R;
 
 template <int I> struct St : StBase<I, INJ_OF[I]>::Type {
